@@ -697,6 +697,12 @@ func TestChildColdExec(t *testing.T) {
 	if err := json.Unmarshal(raw, &jobs); err != nil {
 		t.Fatal(err)
 	}
+	if os.Getenv("VERIF_C01_CLOSE_SIDE_STORES") != "" {
+		// a replica whose node-local side store (the miner public-key store, not part of the state) has become
+		// unwritable - closed during shutdown while a block is still being executed, disk full: what it executes
+		// may not depend on that
+		service.MinerManagerImpl.Close()
+	}
 	outs := make([]outcome, len(jobs))
 	for i := len(jobs) - 1; i >= 0; i-- {
 		j := jobs[i]
@@ -712,7 +718,7 @@ func TestChildColdExec(t *testing.T) {
 	}
 }
 
-func runColdChild(jobs []coldJob) ([]outcome, error) {
+func runColdChild(jobs []coldJob, env ...string) ([]outcome, error) {
 	dir, err := os.MkdirTemp("", "c01cold-")
 	if err != nil {
 		return nil, err
@@ -730,6 +736,7 @@ func runColdChild(jobs []coldJob) ([]outcome, error) {
 	cmd := exec.Command(selfExe, "-test.run", "^TestChildColdExec$", "-test.timeout", "120s")
 	cmd.Dir = dir
 	cmd.Env = append(os.Environ(), "VERIF_C01_COLD="+path, "VERIF_C01_NODEDIR="+nodeCopy, "VERIF_OUT=", "TMPDIR="+dir)
+	cmd.Env = append(cmd.Env, env...)
 	out, err := cmd.CombinedOutput()
 	if err != nil {
 		return nil, fmt.Errorf("child failed: %v\n%s", err, out)
@@ -877,6 +884,18 @@ func TestMinerHistoriesWarmVsFresh(t *testing.T) {
 			if d := warm[i].diff(cold[i]); d != "" {
 				t.Fatalf("a brand-new process on the same stores disagrees with the process that executed the history, at block %d: %s\nhistory: %s", i, d, strings.Join(fingerprint, "; "))
 			}
+		}
+		if rapid.IntRange(0, 2).Draw(t, "replicaWithClosedSideStore") == 0 {
+			faulty, err := runColdChild(jobs, "VERIF_C01_CLOSE_SIDE_STORES=1")
+			if err != nil {
+				t.Fatalf("VERIF-INCONCLUSIVE cold child (side stores closed): %v", err)
+			}
+			for i := range jobs {
+				if d := warm[i].diff(faulty[i]); d != "" {
+					t.Fatalf("a replica whose node-local miner public-key store cannot be written (it is not part of the state) disagrees with a healthy one, at block %d: %s\nhistory: %s", i, d, strings.Join(fingerprint, "; "))
+				}
+			}
+			stats.Class("miner_history_replica_with_closed_side_store")
 		}
 		stats.Count("cold_process_blocks", int64(len(jobs)))
 		stats.Case("minerhist:"+strings.Join(fingerprint, ";"), "miner_history")
